@@ -55,6 +55,7 @@ def eval_case(hist, rec):
 
 
 def strategy():
+    gen.UNREAD_INPUTS['on'] = True   # run bodies that do not read every declared input (not run, not loaded; yet forced)
     return histgen.histories(KINDS, max_ops=22, n_variants=(1, 2),
                              gen_kw=dict(max_modules=3, max_tasks=4, kinds=gen.KINDS_ALL, allow_context=False), name_mode=3)
 
